@@ -245,6 +245,7 @@ def impl_server(case):
             raise Hang()
     server = sockets.PortServer('127.0.0.1', 0, backlog=8)
     addr = server._socket.getsockname()
+    server._socket.settimeout(0.4)           # hang guard: a blocking accept() that nobody answers ends in TimeoutError instead of for ever
     peers, raw = {}, []
     out, fail = [], None
     real = sockets._is_readable
